@@ -46,6 +46,11 @@ type witness struct {
 
 const minimiseBudget = 220
 
+// non-termination reports minimised per worker process
+const maxNontermMinimised = 2
+
+var nontermReports int
+
 var (
 	classMu sync.Mutex
 	classes = map[string]int{}
@@ -77,10 +82,12 @@ func report(ctx context.Context, env *hostEnv, h Sink, layer string, cn int, c C
 	mc, mvd, builds := minimize(ctx, env, c, vd, minimiseBudget)
 	if mvd.Kind == vdMismatch && mvd.MKind == mkNonterm {
 		// minimised under a short watchdog: confirm under the full one
-		if re := judgeCase(ctx, env, mc); re.Kind == vdMismatch && re.MKind == mkNonterm {
-			mvd = re
-		} else {
-			mc, mvd = c, vd
+		if caseSize(mc) < caseSize(c) {
+			if re := judgeCase(ctx, env, mc); re.Kind == vdMismatch && re.MKind == mkNonterm {
+				mvd = re
+			} else {
+				mc, mvd = c, vd
+			}
 		}
 		h.Count("nonterminating_calls", 1)
 		h.Seen("nonterminating_shapes", funcShape(mc.F))
@@ -245,11 +252,19 @@ func checkProgram(ctx context.Context, env *hostEnv, h Sink, layer string, cn in
 			case vdMismatch:
 				mism++
 				if vd.MKind == mkNonterm {
-					// the watchdog closed the guest module: report and abandon the program
-					if iso := judgeCase(ctx, env, c); iso.Kind == vdMismatch && iso.MKind == mkNonterm {
-						report(ctx, env, h, layer, cn, c, iso, src, sp.quirk)
+					// the watchdog closed the guest module: report and abandon the program.
+					// The first few per worker process are minimised (each kept candidate
+					// costs a watchdog period); later ones are filed as they are.
+					c.Calls = c.Calls[:vd.CallIdx+1]
+					nontermReports++
+					if nontermReports <= maxNontermMinimised {
+						report(ctx, env, h, layer, cn, c, vd, src, sp.quirk)
 					} else {
-						h.Inconclusive("real-call-timeout-not-reproduced")
+						h.Count("nonterminating_calls", 1)
+						h.Seen("nonterminating_shapes", funcShape(c.F))
+						h.Violation(layer, cn, signatureOf(c, vd), fmt.Sprintf("%s: spec.md gives %s after %s, the compiled code had not returned after %v: call %v of %s",
+							mkNonterm, vd.Ref, "a bounded number of reference statements", callTimeout, callsToStrings(c.Calls)[vd.CallIdx], head(oneLine(c.F.String()), 600)),
+							witness{Source: c.F.String(), Calls: callsToStrings(c.Calls), CallsRaw: c.Calls, FailingCall: vd.CallIdx, Spec: vd.Ref.String(), Real: "no return within the watchdog", Tags: vd.Tags, OriginalSource: src})
 					}
 					flush(h, tagCount, silentCount, cov, judged, agreeErr, mism)
 					return
